@@ -724,6 +724,37 @@ func monC01(c *child.Ctx, replay json.RawMessage) {
 		execC01Direct(c, kd, cjd)
 		c.Count("frames_with_a_wiped_field", 1)
 	}
+	// a sender whose length field counts something else (the CRC, the leader, both, one
+	// byte more or less): the CRC that is right sits some bytes before or behind the
+	// place the leader points at.  Nothing of it is a frame, whatever follows.
+	nShift := c.Share(c.Pick(3000, 60000))
+	for i := 0; i < nShift; i++ {
+		d := []int{-3, 3, -6, 6, -1, 1, -2, 2, -4, -5, 4, 5}[i%12]
+		t := gen.PickType(r)
+		decl := r.Range(7, 200) // the length the leader declares
+		if decl+d < 2 {
+			continue
+		}
+		body := gen.RandPayload(r, t, decl+d, 0)
+		b := []byte{0xd3, byte(decl >> 8), byte(decl)}
+		b = append(b, body...)
+		crc := ref.CRC24Q(b)
+		b = append(b, byte(crc>>16), byte(crc>>8), byte(crc))
+		for len(b) < decl+6+r.Intn(8) { // make the declared frame complete, and a little more
+			b = append(b, byte(r.Intn(256)))
+		}
+		if ref.IsFrame(b[:decl+6]) {
+			continue
+		}
+		good := gen.RandFrame(r)
+		k := streamCase{Input: hexs(append(append([]byte(nil), b...), good.Bytes...)), Note: fmt.Sprintf("leader declares %d bytes, the CRC that matches covers %d", decl, decl+d)}
+		cj := c.BeginV(k)
+		execC01Stream(c, k, cj)
+		kd := streamCase{Input: hexs(b), Direct: true, Note: k.Note}
+		cjd, _ := json.Marshal(kd)
+		execC01Direct(c, kd, cjd)
+		c.Count("frames_whose_matching_crc_is_misplaced", 1)
+	}
 	// single-frame decoding of a buffer in which the frame is NOT at the front: other
 	// data first (a line end, a NUL, the tail of an earlier message), then a complete
 	// valid frame, then sometimes more.  Whatever is returned typed and without an
@@ -1177,6 +1208,40 @@ func monC03(c *child.Ctx, replay json.RawMessage) {
 			run(s, fmt.Sprintf("long session with %d junk/frame pairs", pairs))
 			c.Count("long_sessions", 1)
 		}
+	}
+	// sessions of more than a thousand (thorough: ten thousand) messages through an
+	// UNBUFFERED input channel, as the file handler and the proxy feed the handler:
+	// whatever is counted, logged or checked once in a thousand messages happens here
+	if c.Batch >= 4 && c.Batch < 6 || c.Thorough() && c.Batch%8 == 5 {
+		var s gen.Stream
+		msgs := r.Range(1001, 2600)
+		if c.Thorough() {
+			msgs = r.Range(10001, 12000)
+		}
+		for j := 0; len(s) < msgs; j++ { // junk is always followed by a frame: one message per segment
+			if r.Chance(1, 2) {
+				s = append(s, gen.Seg{Kind: "junk", Type: -1, Bytes: []byte("$GPGGA,1,2*00\r\n")[:r.Range(1, 15)]})
+			}
+			var f gen.Seg
+			for {
+				f = gen.RandFrame(r)
+				if len(f.Bytes) <= 40 {
+					break
+				}
+			}
+			s = append(s, f)
+			if j%64 == 0 {
+				tick()
+			}
+		}
+		k := streamCase{Input: hexs(s.Bytes()), Expect: toExp(s.ExpectedClean()), Note: fmt.Sprintf("session of %d messages through an unbuffered input channel", len(s.ExpectedClean()))}
+		cj := c.BeginV(k)
+		got := runTimedX(s.Bytes(), nil, 0, -1, 0, []int{0, 16}[r.Intn(2)])
+		if why := compareSeq(got, k.Expect); why != "" {
+			c.Violate("sequence-mismatch", k.Note+": "+why, cj)
+		}
+		c.Count("sessions_of_more_than_a_thousand_messages_unbuffered", 1)
+		c.Eval(ref.Hash64(cj), true)
 	}
 	// junk "of any length": runs around the sizes where buffers are typically capped
 	if c.Batch == 0 || c.Thorough() {
